@@ -837,7 +837,6 @@ class CommandPipeline:
                 ch.close_reader()
         for s, p in zip(self.specs[:-1], self.procs[:-1], strict=False):
             self._safe_close(s.stdin)
-            self._safe_close(s.stderr)
             # Close read ends of connection pipes to unblock any blocked writes,
             # then wait for the proc thread to finish to prevent fd-reuse races.
             for ch in s.pipe_channels:
@@ -856,6 +855,7 @@ class CommandPipeline:
                     # _signal_int and will be handled by the caller.
                     pass
             self._safe_close(s.stdout)
+            self._safe_close(s.stderr)
             for ch in s.pipe_channels:
                 ch.close()
             if p is None:
